@@ -3,19 +3,30 @@
    TextRecords.v, Text.v, Preproc.v; the model is Model/Text.v and Model/Preproc.v.
 
    Vocabulary.  [o : toracles] collects the library functions the model does not define
-   (strconv.IsPrint, net.ParseIP / IP.String, net.ParseCIDR / IPNet.String);
+   (strconv.IsPrint, net.ParseIP / IP.String, net.ParseCIDR / IPNet.String, base64 Decode / Encode);
    the premises of the theorems about o are the library behaviour the proofs rely on: ParseIP
    inverts IP.String on 16-byte addresses, rejects the empty text, and IP.String prints no ','
-   (every IsPrint is allowed).  [serial] is Codec.Serial.  [wf_line o serial l]: the line parses
-   (15 modelled record types: % Z . & + = @ S C ^ ' : M 8 !; not B/H) to a record with
-   bytes < 256, quoted labels shorter than 256 bytes, numbers inside their width, locations of
-   0 or 2 bytes, 16-byte addresses, no empty first label in front of "*." (Model/Text.v
+   (every IsPrint is allowed); for the parameter list of B/H lines [svcb_library o]
+   (Proofs/Text.v) = the premises of C18_text_roundtrip_outside_finding: ParseIP yields 16 bytes,
+   base64 Decode yields bytes and inverts Encode, a printed 4-byte address parses to its v4-in-v6
+   form, a printed 16-byte address outside ::ffff:0:0/96 holds a ':', printed addresses hold none
+   of ; | double-quote and base64 text none of ; double-quote.  All premises are jointly satisfiable
+   (C09_library_premises_satisfiable).
+   [serial] is Codec.Serial.  [wf_line o serial l]: the line parses
+   (all 17 record types: % Z . & + = @ S C ^ ' : M 8 ! B H, Model/Text.v modelled_type) to a record
+   with bytes < 256, quoted labels shorter than 256 bytes, numbers inside their width, locations of
+   0 or 2 bytes, 16-byte addresses, no empty first label in front of "*.", and - B/H - a target whose
+   text does not begin with "*." and a parameter text without ',' (Model/Text.v
    wf_recordb, which also lists the shapes deliberately left outside).
-   [finding_class] = the recorded defects F12 (explicit SOA serial 0), F26 (single-label
-   absolute server name), F27 (root wildcard map); each is shown to be real by a witness.
+   [svcb_accepted o r]: the parameter list of a B/H record is one ParamList.FromText returns (true
+   of every record parse_line returns; trivially true of the other 15 types).
+   [finding_class] = the recorded defects F8 (B/H: v4-mapped ipv6hint), F12 (explicit SOA serial 0),
+   F26 (single-label absolute server name), F27 (root wildcard map); each is shown to be real by a
+   witness.
    [convert v2 nornet r] = the key/value records of MarshalMap (v2 = key layout,
    nornet = NoRnetOutput). *)
 From DnsV Require Import Model.Text Model.Preproc Proofs.Quote Proofs.TextRecords Proofs.Text Proofs.Preproc.
+From DnsV Require Model.Svcb.
 From Coq Require Import Permutation.
 Open Scope N_scope.
 
@@ -25,6 +36,7 @@ Theorem C09_roundtrip_outside_finding : forall o,
   (forall a, wf_bytes a -> length a = 16%nat -> o_parse_ip o (o_print_ip o a) = Some a) ->
   o_parse_ip o [] = None ->
   (forall a, contains 44 (o_print_ip o a) = false) ->
+  svcb_library o ->
   forall serial v2 nornet l r,
   wf_line o serial l -> parse_line o serial l = Ok r -> finding_class o serial r = false ->
   exists r', parse_line o serial (marshal o r) = Ok r' /\
@@ -32,6 +44,18 @@ Theorem C09_roundtrip_outside_finding : forall o,
              marshal o r' = marshal o r.
 Proof. exact roundtrip_stmt. Qed.
 Print Assumptions C09_roundtrip_outside_finding.
+
+(* F8: Hexample.com,.,300,,1,ipv6hint=::ffff:1.2.3.4 (the oracle o_f8 answers as net.ParseIP and
+   net.IP.String do on this address): the line is well formed, parses to a record in the finding class
+   (and in no other), its text form is Hexample.com,.,300,,1,ipv6hint="1.2.3.4", and that text is
+   rejected (ipv6hint value without ':') *)
+Theorem C09_roundtrip_f8_refuted : exists r,
+  wf_line o_f8 7 f8_line /\ parse_line o_f8 7 f8_line = Ok r /\ finding_class o_f8 7 r = true /\
+  f12_class 7 r = false /\ f26_class o_f8 r = false /\ f27_class o_f8 r = false /\
+  marshal o_f8 r = f8_printed /\
+  parse_line o_f8 7 (marshal o_f8 r) = Err (E_SVCB + Model.Svcb.E_IP6_NOCOLON).
+Proof. exact f8_refuted. Qed.
+Print Assumptions C09_roundtrip_f8_refuted.
 
 (* F12: Zexample.com,a.ns.example.com,dns.example.com,0,7200,1800,604800,120,120,,  (Codec.Serial 7):
    the line is well formed, its text form parses, and the re-parsed record compiles differently *)
@@ -63,11 +87,35 @@ Theorem C09_marshal_idempotent : forall o serial,
   (forall a, wf_bytes a -> length a = 16%nat -> o_parse_ip o (o_print_ip o a) = Some a) ->
   o_parse_ip o [] = None ->
   (forall a, contains 44 (o_print_ip o a) = false) ->
+  svcb_library o ->
   forall r r',
-  wf_recordb o r = true -> finding_class o serial r = false ->
+  wf_recordb o r = true -> svcb_accepted o r -> finding_class o serial r = false ->
   parse_line o serial (marshal o r) = Ok r' -> marshal o r' = marshal o r.
-Proof. exact marshal_idempotent. Qed.
+Proof. exact marshal_idempotent_stmt. Qed.
 Print Assumptions C09_marshal_idempotent.
+
+(* every record parse_line returns satisfies svcb_accepted *)
+Theorem C09_parsed_is_accepted : forall o serial l r,
+  parse_line o serial l = Ok r -> svcb_accepted o r.
+Proof. exact parse_accepted. Qed.
+Print Assumptions C09_parsed_is_accepted.
+
+(* all 17 record types are modelled: a line whose type character is none of the 17 is ErrBadRType *)
+Theorem C09_unknown_type_rejected : forall o serial t b,
+  modelled_type t = false -> parse_line o serial (t :: b) = Err E_BADTYPE.
+Proof. exact unknown_type_rejected. Qed.
+Print Assumptions C09_unknown_type_rejected.
+
+(* a B/H shape left outside the guard is a real failure of the round trip:
+   Bx.example.com,*.*.svc.example.com,300,,1 keeps the target *.svc.example.com, prints it, and reads it
+   back as svc.example.com (getdom drops a leading "*." of the target each time) *)
+Theorem C09_svcb_wild_target_not_roundtrip : exists r r',
+  parse_line o_plain 7 svcb_tgt_line = Ok r /\ wf_lineb o_plain 7 svcb_tgt_line = false /\
+  finding_class o_plain 7 r = false /\
+  parse_line o_plain 7 (marshal o_plain r) = Ok r' /\
+  convert false false r' <> convert false false r.
+Proof. exact svcb_wild_target_not_roundtrip. Qed.
+Print Assumptions C09_svcb_wild_target_not_roundtrip.
 
 (* range point text <-> key/value: the printed mask length of an IPv4 point is the stored
    128-bit length less 96 (uint8 arithmetic), and the line read back compiles to the key
@@ -136,6 +184,27 @@ Example C09_example :
       convert true false r <> [].
 Proof. exact roundtrip_example. Qed.
 Print Assumptions C09_example.
+
+(* non-vacuity for B/H: H*.Example.com:svc.example.com.:300:ab:1:port="443";alpn=h2|h3;no-default-alpn=
+   satisfies the guard, is outside the findings, is not in normal form, and goes round *)
+Example C09_svcb_example :
+  wf_line o_plain 7 svcb_ex_line /\
+  exists r, parse_line o_plain 7 svcb_ex_line = Ok r /\ finding_class o_plain 7 r = false /\
+    marshal o_plain r <> svcb_ex_line /\
+    exists r', parse_line o_plain 7 (marshal o_plain r) = Ok r' /\
+      convert true false r' = convert true false r /\ marshal o_plain r' = marshal o_plain r /\
+      convert true false r <> [].
+Proof. exact svcb_example. Qed.
+Print Assumptions C09_svcb_example.
+
+(* the library premises of the line-level theorems are jointly satisfiable (toy address / base64 syntax) *)
+Example C09_library_premises_satisfiable :
+  (forall a, wf_bytes a -> length a = 16%nat -> o_parse_ip o_toy (o_print_ip o_toy a) = Some a) /\
+  o_parse_ip o_toy [] = None /\
+  (forall a, contains 44 (o_print_ip o_toy a) = false) /\
+  svcb_library o_toy.
+Proof. exact library_premises_satisfiable. Qed.
+Print Assumptions C09_library_premises_satisfiable.
 
 (* non-vacuity at file level: a file with a comment, %ab,10.0.0.0/8,m1, a Z line without serial and an
    address line satisfies wf_file (with a two-point rearranger); it is preprocessed to four lines
